@@ -168,7 +168,7 @@ func c02session(proto string, cases []e2eCase, msgs *int64, report func(c02fail)
 	}
 	defer ep.CloseConnToCollector()
 	peer.accept()
-	var seq uint32
+	var seq, slack uint32 // slack: records of refused sends since the last message seen on the wire
 	limit := 65535
 	if proto == "udp" {
 		limit = 65507
@@ -202,6 +202,10 @@ func c02session(proto string, cases []e2eCase, msgs *int64, report func(c02fail)
 				report(c02fail{"malformed", fmt.Sprintf("%s: %v (first bytes %x)", what, err, short(b)), c.name})
 				return false
 			}
+			if slack != 0 && p.Header.Seq == seq+slack {
+				seq += slack // the refused attempts before this message had consumed sequence numbers: failed attempts are outside the statement, follow the library
+			}
+			slack = 0
 			if p.Header.Domain != domain || p.Header.Seq != seq {
 				report(c02fail{"header", fmt.Sprintf("%s: domain %#x seq %d on the wire, expected %#x / %d", what, p.Header.Domain, p.Header.Seq, domain, seq), c.name})
 			}
@@ -251,10 +255,8 @@ func c02session(proto string, cases []e2eCase, msgs *int64, report func(c02fail)
 					report(c02fail{"oversized-sent", fmt.Sprintf("data set of %d bytes (limit %d) was sent", size, limit), c.name})
 					return
 				}
-				if size <= 65535 {
-					// refused by the socket (datagram limit), after the counter had advanced: follow the library
-					seq += uint32(len(g))
-				}
+				// whether a refused attempt consumed sequence numbers is not the statement's business
+				slack += uint32(len(g))
 				continue
 			}
 			seq += uint32(len(g))
